@@ -78,7 +78,22 @@ type VerifTask struct {
 	Bad    []core.TractserverID
 	Factor int
 	InHeap bool
+	RS     bool // an rsTask (ID is the chunk's base id as a tract id); N, M its class
+	N, M   int
 	t      task
+}
+
+func (vt *VerifTask) fill(t task) {
+	vt.t = t
+	switch x := t.(type) {
+	case *replTask:
+		vt.Bad = append([]core.TractserverID(nil), x.badTs.ToSlice()...)
+		vt.Factor = int(x.factor)
+	case *rsTask:
+		vt.RS = true
+		vt.Bad = append([]core.TractserverID(nil), x.badTs.ToSlice()...)
+		vt.N, vt.M = int(x.n), int(x.m)
+	}
 }
 
 // VerifDetect is what one detect round left behind.
@@ -128,11 +143,8 @@ func (vr *VerifRecovery) Snapshot() VerifDetect {
 	}
 	r.pendingLock.Lock()
 	for id, eh := range r.entryMap {
-		vt := VerifTask{ID: id, InHeap: eh.ent.index >= 0, t: eh.ent.task}
-		if rt, ok := eh.ent.task.(*replTask); ok {
-			vt.Bad = append([]core.TractserverID(nil), rt.badTs.ToSlice()...)
-			vt.Factor = int(rt.factor)
-		}
+		vt := VerifTask{ID: id, InHeap: eh.ent.index >= 0}
+		vt.fill(eh.ent.task)
 		out.Entries = append(out.Entries, vt)
 	}
 	r.pendingLock.Unlock()
@@ -150,11 +162,8 @@ func (vr *VerifRecovery) PopTask() (VerifTask, bool) {
 	if !ok {
 		return VerifTask{}, false
 	}
-	vt := VerifTask{ID: t.ID(), t: t}
-	if rt, ok := t.(*replTask); ok {
-		vt.Bad = append([]core.TractserverID(nil), rt.badTs.ToSlice()...)
-		vt.Factor = int(rt.factor)
-	}
+	vt := VerifTask{ID: t.ID()}
+	vt.fill(t)
 	return vt, true
 }
 
@@ -176,3 +185,36 @@ func (vr *VerifRecovery) QueueLen() int {
 func (v *VerifCurator) HeartbeatBad(id core.TractserverID, addr string, bad []core.TractID) []core.PartitionID {
 	return v.C.tractserverHeartbeat(id, addr, bad, nil, core.TractserverLoad{AvailSpace: 1 << 40, TotalSpace: 1 << 41})
 }
+
+// C04GcOnce is one iteration of gcTractserverContents for one heartbeat report: CheckForGarbage, then
+// filterPendingPieces, then the GCTract RPC (same calls, same order).
+func (v *VerifCurator) C04GcOnce(id core.TractserverID, addr string, has []core.TractID) (old []core.TractState, gone []core.TractID) {
+	c := v.C
+	old, gone = c.stateHandler.CheckForGarbage(id, has)
+	gone = c.filterPendingPieces(gone)
+	if len(old) > 0 || len(gone) > 0 {
+		c.tt.GCTract(addr, id, old, gone)
+	}
+	return
+}
+
+// C04Reconstruct runs the real reconstructChunk directly (a caller insisting on a repair).
+func (v *VerifCurator) C04Reconstruct(id core.RSChunkID, bad []core.TractserverID) core.Error {
+	return v.C.reconstructChunk(id, bad)
+}
+
+// C04RSHosts reads the durable host list of a chunk (nil if unknown).
+func (d *VerifDurable) C04RSHosts(id core.RSChunkID) []core.TractserverID {
+	ch := d.SH.GetRSChunk(id)
+	if ch == nil {
+		return nil
+	}
+	out := make([]core.TractserverID, ch.HostsLength())
+	for i := range out {
+		out[i] = core.TractserverID(ch.Hosts(i))
+	}
+	return out
+}
+
+// C04PieceLength is what reconstructChunk asks RSEncode for (the production piece length).
+const C04PieceLength = RSPieceLength
